@@ -314,6 +314,105 @@ func runC08(c *bx.Ctx) {
 			c.NT()
 		}
 	}
+	// status vector chunks: at most 14 one-bit / 7 two-bit symbols fit
+	for ss := uint16(0); ss < 2; ss++ {
+		max := 14
+		if ss == 1 {
+			max = 7
+		}
+		for n := 0; n <= 17; n++ {
+			if !c.Mine() {
+				continue
+			}
+			syms := make([]uint16, n)
+			word := uint16(0x8000) | ss<<14
+			for i := range syms {
+				syms[i] = uint16(i+1) & (1<<(ss+1) - 1)
+				if i < max {
+					if ss == 0 {
+						word |= syms[i] << (13 - uint(i))
+					} else {
+						word |= syms[i] << (12 - 2*uint(i))
+					}
+				}
+			}
+			ch := rtcp.StatusVectorChunk{Type: rtcp.TypeTCCStatusVectorChunk, SymbolSize: ss, SymbolList: syms}
+			var b []byte
+			var err error
+			msg, pan := bx.Guard(func() { b, err = ch.Marshal() })
+			c.T(1)
+			rp := bx.Replay{Entry: "StatusVectorChunk.Marshal", Ops: fmt.Sprintf("symbol size %d, %d symbols", ss, n), Expected: fmt.Sprintf("%04x or error above %d symbols", word, max), Observed: fmt.Sprint(bx.Hex(b), err, msg)}
+			switch {
+			case pan:
+				c.Report("C08/status-vector-symbols/panic", "StatusVectorChunk.Marshal panics", rp)
+			case n > max && (err == nil || len(b) != 0):
+				c.Report("C08/status-vector-symbols/over-limit-accepted", "a status vector chunk with more symbols than fit is encoded (symbols dropped)", rp)
+			case n <= max && (err != nil || len(b) != 2 || uint16(b[0])<<8|uint16(b[1]) != word):
+				c.Report("C08/status-vector-symbols/bytes", "a status vector chunk within range is mis-encoded", rp)
+			default:
+				c.NT()
+			}
+		}
+	}
+	// NACK / SLI list sizes: either an error, or bytes that represent every entry
+	for _, n := range []int{1, 252, 253, 254, 255, 256, 257} {
+		if !c.Mine() {
+			continue
+		}
+		nk := &rtcp.TransportLayerNack{SenderSSRC: 1, MediaSSRC: 2}
+		for i := 0; i < n; i++ {
+			nk.Nacks = append(nk.Nacks, rtcp.NackPair{PacketID: uint16(i), LostPackets: rtcp.PacketBitmap(i * 3)})
+		}
+		b, err, pan := safeMarshal(nk)
+		c.T(1)
+		if pan != "" {
+			c.Report("C08/nack-list/panic", "TransportLayerNack.Marshal panics", bx.Replay{Entry: "Marshal", Ops: fmt.Sprint(n, " pairs"), Expected: "bytes or error", Observed: pan})
+		} else if err == nil {
+			w, rerr := ref.Encode(nk, opt)
+			if rerr != nil || !bytes.Equal(w.B, b) {
+				c.Report("C08/nack-list/truncated", "TransportLayerNack.Marshal succeeds but the bytes do not represent every pair", bx.Replay{Entry: "Marshal", Ops: fmt.Sprint(n, " pairs"), Expected: "reference bytes", Observed: bx.Short(b)})
+			} else {
+				c.NT()
+			}
+		} else {
+			c.NT()
+		}
+	}
+	for _, n := range []int{1, 252, 253, 254, 255, 256, 257} {
+		if !c.Mine() {
+			continue
+		}
+		sl := &rtcp.SliceLossIndication{SenderSSRC: 1, MediaSSRC: 2}
+		for i := 0; i < n; i++ {
+			sl.SLI = append(sl.SLI, rtcp.SLIEntry{First: uint16(i), Number: uint16(i * 3 & 0x1fff), Picture: uint8(i & 0x3f)})
+		}
+		b, err, pan := safeMarshal(sl)
+		c.T(1)
+		switch {
+		case pan != "":
+			c.Report("C08/sli-list/panic", "SliceLossIndication.Marshal panics", bx.Replay{Entry: "Marshal", Ops: fmt.Sprint(n, " entries"), Expected: "bytes or error", Observed: pan})
+		case err == nil && len(b) != 12+4*n:
+			c.Report("C08/sli-list/truncated", "SliceLossIndication.Marshal succeeds but does not emit every entry", bx.Replay{Entry: "Marshal", Ops: fmt.Sprint(n, " entries"), Expected: fmt.Sprint(12+4*n, " octets"), Observed: fmt.Sprint(len(b))})
+		default:
+			c.NT()
+		}
+	}
+	// a TWCC packet holding a status vector chunk with too many symbols must not marshal
+	if c.Mine() {
+		for _, n := range []int{14, 15} {
+			st := make([]uint8, 14)
+			spec := ref.TWCCSpec{Sender: 1, Media: 2, Statuses: st, Ticks: nil, Chunks: ref.VectorChunking(st, false)}
+			p := spec.Packet()
+			p.PacketChunks[0].(*rtcp.StatusVectorChunk).SymbolList = make([]uint16, n)
+			b, err, pan := safeMarshal(p)
+			c.T(1)
+			if pan != "" || (n > 14 && (err == nil || len(b) != 0)) || (n <= 14 && err != nil) {
+				c.Report("C08/twcc-chunk-symbols", "TransportLayerCC.Marshal mishandles a status vector chunk at / above its symbol capacity", bx.Replay{Entry: "Marshal", Ops: fmt.Sprint(n, " one-bit symbols"), Expected: "error above 14", Observed: fmt.Sprint(bx.Short(b), err, pan)})
+			} else {
+				c.NT()
+			}
+		}
+	}
 	// observed, not judged: list sizes of NACK / SLI / FIR beyond what the length field can express
 	c.Space("observed-not-judged")
 	if c.Mine() {
